@@ -30,8 +30,9 @@ struct Access
 {
     char kind;          // 'R' / 'W'
     int role;           // 0: started by thread A, 1: started by thread B, 2: dropped unstarted
+    int drop_connected = 0;
     int group;          // number of W before it (reads with equal group may overlap)
-    int granted = 0, released = 0, grants = 0, ready = 0;
+    int granted = 0, released = 0, grants = 0, ready = 0, start_called = 0;
     std::optional<std::variant<ro_t, rw_t>> held;
     std::optional<ro_t> copy;
 };
@@ -92,7 +93,23 @@ static void start_kept(int who, S&& s, F&& f)
     ex::start(*op);
 }
 
-template <int MAXLEN, int KEEP_OPSTATES = 0>
+// INLINE_RELEASE mode: the continuation of an access drops its wrapper at once and then waits until the
+// next access whose start() has been called is granted (all earlier accesses are released by then, so it
+// must be - inline during the drop, or by its own starting thread)
+static void wait_next_granted(int i)
+{
+    for (int j = i + 1; j < N; ++j)
+    {
+        if (A[j].role == 2) continue;
+        if (!A[j].start_called) return;
+        int guard = 0;
+        while (!A[j].granted && ++guard < 1500) sched_yield();
+        PMC_ASSERT(A[j].granted, "never-granted", "access %d (%c) was started and every earlier access is released (access %d dropped its wrapper inside its continuation), but it is not granted while that continuation keeps running", j, A[j].kind, i);
+        return;
+    }
+}
+
+template <int MAXLEN, int KEEP_OPSTATES = 0, int INLINE_RELEASE = 0>
 static void prog()
 {
     static Access acc[MAXN];
@@ -106,6 +123,9 @@ static void prog()
     {
         acc[i].kind = pmc_choose(2, 0) ? 'W' : 'R';
         acc[i].role = pmc_choose(3, 0);
+        // an access that is never started: its sender is dropped, or (operation-state mode) it is connected
+        // to a receiver and the operation state is destroyed without having been started
+        acc[i].drop_connected = (KEEP_OPSTATES && acc[i].role == 2) ? pmc_choose(2, 0) : 0;
         acc[i].group = nw;
         if (acc[i].kind == 'W') ++nw;
         started_w_version[i] = 0;
@@ -130,16 +150,34 @@ static void prog()
             if (acc[i].kind == 'W')
             {
                 auto s = m->readwrite();
-                if (acc[i].role == 2) continue;    // s dropped here, unstarted
+                if (acc[i].role == 2)
+                {
+                    if (acc[i].drop_connected)
+                    {
+                        auto never = [i](rw_t) { pmc_fail("unstarted-granted", "access %d was never started but its receiver was signalled", i); };
+                        auto op = ex::connect(std::move(s), GrantRecv<decltype(never)>{never});
+                    }
+                    continue;    // s (or the unstarted operation state) dropped here
+                }
                 auto sp = std::make_shared<decltype(s)>(std::move(s));
                 int who = acc[i].role;
                 start[acc[i].role].push_back([i, sp, who] {
                     auto body = [i](rw_t w) {
                         on_grant(i, w.get().version);
                         ++w.get().version;
+                        if (INLINE_RELEASE)
+                        {
+                            A[i].released = 1;
+                            { rw_t drop = std::move(w); }
+                            pmc_progress();
+                            wait_next_granted(i);
+                            A[i].ready = 2;
+                            return;
+                        }
                         A[i].held.emplace(std::move(w));
                         A[i].ready = 1;
                     };
+                    A[i].start_called = 1;
                     if (KEEP_OPSTATES) start_kept(who, std::move(*sp), body);
                     else ex::start_detached(std::move(*sp) | ex::then(body));
                 });
@@ -147,16 +185,34 @@ static void prog()
             else
             {
                 auto s = m->read();
-                if (acc[i].role == 2) continue;
+                if (acc[i].role == 2)
+                {
+                    if (acc[i].drop_connected)
+                    {
+                        auto never = [i](ro_t) { pmc_fail("unstarted-granted", "access %d was never started but its receiver was signalled", i); };
+                        auto op = ex::connect(std::move(s), GrantRecv<decltype(never)>{never});
+                    }
+                    continue;
+                }
                 auto sp = std::make_shared<decltype(s)>(std::move(s));
                 int who = acc[i].role;
                 start[acc[i].role].push_back([i, sp, copy_read, who] {
                     auto body = [i, copy_read](ro_t r) {
                         on_grant(i, r.get().version);
+                        if (INLINE_RELEASE)
+                        {
+                            A[i].released = 1;
+                            { ro_t drop = std::move(r); }
+                            pmc_progress();
+                            wait_next_granted(i);
+                            A[i].ready = 2;
+                            return;
+                        }
                         if (copy_read) A[i].copy.emplace(r);    // a second owner of the same read access
                         A[i].held.emplace(std::move(r));
                         A[i].ready = 1;
                     };
+                    A[i].start_called = 1;
                     if (KEEP_OPSTATES) start_kept(who, std::move(*sp), body);
                     else ex::start_detached(std::move(*sp) | ex::then(body));
                 });
@@ -172,6 +228,7 @@ static void prog()
                 int guard = 0;
                 while (!acc[i].ready && ++guard < 2000) sched_yield();
                 PMC_ASSERT(acc[i].ready, "never-granted", "access %d (%c) not granted although every earlier access was released or is being released", i, acc[i].kind);
+                if (acc[i].ready == 2) continue;    // released inside its continuation
                 pmc_note("RELEASE access %d (%c) copy=%d", i, acc[i].kind, (int) acc[i].copy.has_value());
                 if (acc[i].copy)
                 {
@@ -204,15 +261,16 @@ int main(int argc, char** argv)
     static const char* focus = "F-site: all atomics in async_rw_mutex.hpp (op_state_head CAS/exchange), the shared_ptr control blocks of the group states and of the value (libstdc++ atomics compiled in the harness TU), start_detached";
     static const pmc_spec specs[] = {
         {"rw_len2", prog<2>, 3, 4, 0.25, 0.15, 1, focus, sites, nullptr},
-        {"rw_len3", prog<3>, 2, 3, 0.6, 0.35, 1, focus, sites, nullptr},
+        {"rw_len3", prog<3>, 2, 3, 0.55, 0.35, 1, focus, sites, nullptr},
         {"rw_len4", prog<4>, -1, 2, 0, 0.3, 1, focus, sites, nullptr},
         {"rw_len2_opstates_kept", prog<2, 1>, 2, 3, 0.15, 0.05, 1, focus, sites, nullptr},
-        {"rw_len3_opstates_kept", prog<3, 1>, -1, 2, 0, 0.15, 1, focus, sites, nullptr},
+        {"rw_len3_opstates_kept", prog<3, 1>, -1, 2, 0, 0.1, 1, focus, sites, nullptr},
+        {"rw_len3_inline_release", prog<3, 0, 1>, 1, 2, 0.1, 0.05, 1, focus, sites, nullptr},
     };
     static const char* assumptions[] = {"sequentially consistent interleavings only", "2 starting threads + the requesting main thread", "the non-void specialisation async_rw_mutex<T> (the void specialisation shares the state machine)"};
     pmc_config cfg{};
     cfg.property_id = "C04";
-    cfg.rule = "request words over {R,W} (len<=3, thorough 4) x role of each access {started by thread A, by thread B, dropped unstarted} x {mutex destroyed right after the requests} x {read wrapper copied} x {start_detached | manual connect/start with operation states kept alive to the end} (data choices) x all schedules within the deviation bound";
+    cfg.rule = "request words over {R,W} (len<=3, thorough 4) x role of each access {started by thread A, by thread B, never started: sender dropped / connected operation state destroyed} x {mutex destroyed right after the requests} x {read wrapper copied} x {start_detached | manual connect/start with operation states kept alive to the end | wrapper dropped inside the continuation, which then waits for the next started access} (data choices) x all schedules within the deviation bound";
     cfg.assumptions = assumptions;
     cfg.n_assumptions = 3;
     cfg.quick_budget_s = 90;
